@@ -319,6 +319,10 @@ pub fn run(tier: Tier) -> i32 {
     rep.assume("sizes from {0,1,1200,1201,2401}; budgets ample (100 kB) so no budget disconnect is legitimate");
     let sc = scenarios(tier);
     run_link_scenarios(&mut rep, "m2", &sc, tier.pick(3, 4), tier.pick(120.0, 3000.0));
+    if rep.machinery.is_none() {
+        let long = super::c01::long_scenarios(Kind::Unordered, (|| Box::new(UnorderedProbe::new()) as Box<dyn Probe>) as fn() -> Box<dyn Probe>);
+        super::run_link_scenarios_from(&mut rep, "m2-long", &long[..tier.pick(1, 2)], tier.pick(1, 2), tier.pick(120.0, 3000.0), 1000);
+    }
     {
         let ks: Vec<usize> = tier.pick(vec![300, 1100, 1500, 2500], vec![255, 256, 257, 1023, 1024, 1025, 1100, 1500, 2500, 5000]);
         for &k in &ks {
@@ -356,6 +360,10 @@ pub fn replay(j: &J) -> i32 {
                 0
             }
         };
+    }
+    if j.get("scenario_index").and_then(|x| x.as_i()).unwrap_or(0) >= 1000 {
+        let long = super::c01::long_scenarios(Kind::Unordered, (|| Box::new(UnorderedProbe::new()) as Box<dyn Probe>) as fn() -> Box<dyn Probe>);
+        return super::replay_link_from(&long, j, 1000);
     }
     replay_link(&scenarios(tier), j)
 }
